@@ -1201,6 +1201,32 @@ func generateOverlay(pkg *packages.Package, contracts []*FuncContract, regions [
 			}
 		}
 	}
+	// standard packages a contract expression may use although no file of the package imports them
+	for _, std := range []string{"strings", "strconv", "errors", "io", "time", "bytes", "slices", "sort", "math", "fmt"} {
+		have := false
+		for _, n := range g.imports {
+			if n == std {
+				have = true
+			}
+		}
+		if !have && regexp.MustCompile(`(^|[^A-Za-z0-9_.])`+std+`\.[A-Z]`).MatchString(bodyText) && !strings.Contains(bodyText, "("+std+" ") && !strings.Contains(bodyText, ", "+std+" ") {
+			g.imports[std] = std
+		}
+	}
+	// an import that only a dropped capture type needed would be unused
+	for path, name := range g.imports {
+		if !regexp.MustCompile(`(^|[^A-Za-z0-9_.])` + regexp.QuoteMeta(name) + `\.`).MatchString(bodyText) {
+			aliased := false
+			for _, rw := range aliasRewrites {
+				if rw[1] == name && regexp.MustCompile(`(^|[^A-Za-z0-9_.])`+regexp.QuoteMeta(rw[0])+`\.`).MatchString(bodyText) {
+					aliased = true
+				}
+			}
+			if !aliased {
+				delete(g.imports, path)
+			}
+		}
+	}
 	needSame := strings.Contains(body.String(), "vqSame(") && pkg.Types.Scope().Lookup("vqSame") == nil
 	if needSame {
 		g.imports["fmt"] = "fmt"
